@@ -1,3 +1,4 @@
+import ParryModel.C18.DriverVox3
 import ParryModel.Proto
 import ParryModel.C18.ModelVox
 import Std.Data.HashSet
@@ -284,6 +285,6 @@ def handlerVox (fn : String) : Option Handler :=
             | some so => setOracle x so
             | none => "fail unparsable-output")
         | none => "skip bad-args" }
-  | _ => none
+  | _ => handlerVox3 fn
 
 end C18
